@@ -13,10 +13,14 @@ impl<T> Atomic<T> {
     }
 
     pub(crate) fn load<'g>(&self, ordering: Ordering, guard: &'g Guard<'_>) -> Shared<'g, T> {
+        #[cfg(feature = "verif")]
+        crate::verif::hit(crate::verif::ATOMIC_LOAD, crate::verif::addr(&self.0), 0);
         guard.protect(&self.0, ordering).into()
     }
 
     pub(crate) fn store(&self, new: Shared<'_, T>, ordering: Ordering) {
+        #[cfg(feature = "verif")]
+        crate::verif::hit(crate::verif::ATOMIC_STORE, crate::verif::addr(&self.0), 0);
         self.0.store(new.ptr, ordering);
     }
 
@@ -30,6 +34,8 @@ impl<T> Atomic<T> {
         ord: Ordering,
         _: &'g Guard<'_>,
     ) -> Shared<'g, T> {
+        #[cfg(feature = "verif")]
+        crate::verif::hit(crate::verif::ATOMIC_SWAP, crate::verif::addr(&self.0), 0);
         self.0.swap(new.ptr, ord).into()
     }
 
@@ -41,6 +47,8 @@ impl<T> Atomic<T> {
         failure: Ordering,
         _: &'g Guard<'_>,
     ) -> Result<Shared<'g, T>, CompareExchangeError<'g, T>> {
+        #[cfg(feature = "verif")]
+        crate::verif::hit(crate::verif::ATOMIC_CAS, crate::verif::addr(&self.0), 0);
         match self
             .0
             .compare_exchange(current.ptr, new.ptr, success, failure)
